@@ -315,9 +315,17 @@ def perturb(r, ms):
     ms = list(ms)
     if not ms:
         return ms, "none"
-    kind = r.choice(["none", "reorder", "pitch", "onset", "duration", "velocity", "channel", "sig", "sigtick", "key",
-                     "drop", "chan_all"])
+    kind = r.choice(["none", "reorder", "pitch", "onset", "duration", "velocity", "channel", "sig", "sigden", "sigtick",
+                     "key", "drop", "chan_all", "sig", "sigden", "key", "sigtick"])
+    if kind in ("sig", "sigden", "sigtick", "key"):
+        want = "KEY_SIGNATURE" if kind == "key" else r.choice(["TIME_SIGNATURE", "KEY_SIGNATURE"]) if kind == "sigtick" else "TIME_SIGNATURE"
+        cands = [j for j, x in enumerate(ms) if x[0] == want]
+        if not cands:
+            ms.append(TS(0, 3, 4, r.choice([0, 12, 48])) if want == "TIME_SIGNATURE" else KS(0, r.choice(G.KEYS), r.choice([0, 12, 48])))
+            cands = [len(ms) - 1]
     i = r.randrange(len(ms))
+    if kind in ("sig", "sigden", "sigtick", "key"):
+        i = r.choice(cands)
     m = ms[i]
     if kind == "reorder":
         r.shuffle(ms)
@@ -338,6 +346,8 @@ def perturb(r, ms):
         ms = [x[:1] + (x[1] + 3,) + x[2:] for x in ms]
     elif kind == "sig" and m[0] == "TIME_SIGNATURE":
         ms[i] = m[:8] + (m[8] + 1,) + m[9:]
+    elif kind == "sigden" and m[0] == "TIME_SIGNATURE":
+        ms[i] = m[:9] + (m[9] * 2,) + m[10:]
     elif kind == "sigtick" and m[0] in ("TIME_SIGNATURE", "KEY_SIGNATURE"):
         ms[i] = m[:2] + (m[2] + 1,) + m[3:]
     elif kind == "key" and m[0] == "KEY_SIGNATURE":
@@ -349,6 +359,9 @@ def perturb(r, ms):
 
 def _gen_equals(r):
     a = G.gen_abs_wf(r, chans=r.choice([[0], [0, 1]]), extra=False)
+    if r.random() < 0.5:      # make sure signatures are present often
+        a.append(TS(0, *r.choice(G.SIGS), r.choice([0, 0, 24, 96])))
+        a.append(KS(0, r.choice(G.KEYS), r.choice([0, 0, 24, 96])))
     b, kind = perturb(r, a)
     flags = tuple(r.random() < 0.3 for _ in range(4))
     return a, b, flags, kind
@@ -627,10 +640,42 @@ def show_state(d):
     return ",".join(str(d[k]) for k in ks)
 
 
+def mk_track(ms, how):
+    """how: 'rel' (relative view given), 'abs' (built with add_absolute_message: absolute view fresh),
+    'abs0' (same, every message on channel 0), 'read' (relative given, then the absolute view is read)"""
+    if how == "rel":
+        return mk_rel(ms)
+    if how == "read":
+        s = mk_rel(ms)
+        s.abs
+        return s
+    a, d = [], 0
+    for m in ms:
+        if m[0] == "WAIT":
+            d += m[2]
+        else:
+            a.append(m[:1] + ((0,) if how == "abs0" else (m[1],)) + (d,) + m[3:])
+    return mk_abs(a)
+
+
+def track_rel_lit(ms, how):
+    """the relative list the model starts from, as a Coq term"""
+    if how in ("rel", "read"):
+        return lit_msgs(ms)
+    a, d = [], 0
+    for m in ms:
+        if m[0] == "WAIT":
+            d += m[2]
+        else:
+            a.append(m[:1] + ((0,) if how == "abs0" else (m[1],)) + (d,) + m[3:])
+    return f"(to_rel {INS(a)})"
+
+
 def _impl_roundtrip_tok(inp):
-    cfg, tracks = inp
+    cfg, tracks = inp[0], inp[1]
+    hows = inp[2] if len(inp) > 2 else ["rel"] * len(tracks)
     t = mk_tok(cfg)
-    seqs = [mk_rel(ms) for ms in tracks]
+    seqs = [mk_track(ms, h) for ms, h in zip(tracks, hows)]
     sd = {}
     toks = t.tokenise(seqs, state_dict=sd)
     out = " ".join(toks) + "#" + show_state(sd) + "#"
@@ -652,10 +697,15 @@ def _impl_roundtrip_tok(inp):
 
 def _gen_rt(r):
     cfg = gen_cfg(r)
-    return cfg, gen_piece(r, cfg, valid=r.random() < 0.8)
+    tracks = gen_piece(r, cfg, valid=r.random() < 0.8)
+    # tracks without a trailing rest can be handed over through the absolute view as well
+    hows = [r.choice(["rel", "rel", "abs", "abs0", "read"]) if not (ms and ms[-1][0] == "WAIT") else r.choice(["rel", "read"])
+            for ms in tracks]
+    return cfg, tracks, hows
 
 
-Op("tok_roundtrip", _gen_rt, _impl_roundtrip_tok, lambda inp: f"roundtrip {lit_cfg(inp[0])} {lit_msgss(inp[1])}",
+Op("tok_roundtrip", _gen_rt, _impl_roundtrip_tok,
+   lambda inp: f"roundtrip {lit_cfg(inp[0])} [" + "; ".join(track_rel_lit(ms, h) for ms, h in zip(inp[1], inp[2])) + "]",
    lambda inp: sum(len(t) for t in inp[1]) > 4)
 
 
@@ -798,7 +848,7 @@ def gen_history(r, nsteps=None, two_sided=False):
                           WT(0, r.choice([1, 6, 12, 24])), TS(0, *r.choice(G.SIGS)), KS(0, r.choice(G.KEYS))])
             ops.append((k, i, m, r.choice([None, None, 0, 1, 2, -1, 5])))
         elif k in ("OConcat", "OMerge"):
-            js = [j for j in (r.randrange(n) for _ in range(r.choice([1, 1, 2]))) if j != i]
+            js = list(dict.fromkeys(j for j in (r.randrange(n) for _ in range(r.choice([1, 1, 2]))) if j != i))
             ops.append((k, i, js))
         elif k == "OConcatLit":
             ops.append((k, i, [G.gen_rel_wf(r, n=r.randint(0, 2), pitches=[60, 61], hi=30, extra=False) for _ in range(r.choice([1, 2]))]))
@@ -832,13 +882,30 @@ def gen_history(r, nsteps=None, two_sided=False):
         elif k == "OEquals":
             ops.append((k, i, r.randrange(n)) + tuple(r.random() < 0.3 for _ in range(4)))
         elif k in ("OEditAbs", "OEditRel"):
+            # edits must stay well-typed (a pitch only on note messages, a time only on waits in the relative view):
+            # look at the messages the iteration will yield, on a throw-away execution of the history so far
+            store, _ = _exec(ops, return_store=True)
+            try:
+                view = store[i].abs._messages if k == "OEditAbs" else store[i].rel._messages
+            except Exception:
+                view = []
             es = []
             for _ in range(r.choice([1, 1, 2, 3])):
-                f = r.choice(["FTime", "FChan", "FNote", "FVel"] if k == "OEditAbs" else ["FTime", "FChan", "FNote", "FVel"])
+                if not view:
+                    break
+                j = r.randrange(len(view))
+                m = view[j]
+                isnote = m.message_type in (MT.NOTE_ON, MT.NOTE_OFF)
+                fields = ["FChan"] + (["FNote"] if isnote else []) + (["FVel"] if m.message_type == MT.NOTE_ON else [])
+                if k == "OEditAbs" or m.message_type == MT.WAIT:
+                    fields.append("FTime")
+                f = r.choice(fields)
                 v = {"FTime": r.choice([0, 6, 12, 13, 30, 50]), "FChan": r.choice([0, 1, 2]), "FNote": r.choice([60, 61, 62]),
                      "FVel": r.choice([1, 64, 127])}[f]
-                es.append((r.randrange(8), f, v))
-            ops.append((k, i, es))
+                es.append((j, f, v))
+            # peek: read the OTHER view while holding a yielded message, then edit it (the per-yield invalidation
+            # exists to make exactly this safe); the model op is the same with or without peeking
+            ops.append((k, i, es, r.random() < 0.4))
         elif k in ("OBarInit", "OBarCopy"):
             ops.append((k, i) + r.choice([(4, 4), (4, 4), (3, 4), (6, 8), (2, 2)]))
             if k == "OBarCopy":
@@ -915,14 +982,20 @@ def _exec(ops, upto=None, trace=True, return_store=False, hook=None):
             elif k == "ODuration":
                 out = str(store[o[1]].get_sequence_duration())
             elif k == "OEditAbs":
+                peek = len(o) > 3 and o[3]
                 for idx, m in enumerate(store[o[1]].messages_abs()):
                     for (j, f, v) in o[2]:
                         if j == idx:
+                            if peek:
+                                store[o[1]].rel
                             setattr(m, FIELDS[f], v)
             elif k == "OEditRel":
+                peek = len(o) > 3 and o[3]
                 for idx, m in enumerate(store[o[1]].messages_rel()):
                     for (j, f, v) in o[2]:
                         if j == idx and not (f == "FTime" and m.message_type != MT.WAIT):
+                            if peek:
+                                store[o[1]].abs
                             setattr(m, FIELDS[f], v)
             elif k == "OBarInit":
                 Bar(store[o[1]], o[2], o[3])
